@@ -7,7 +7,7 @@ use serde::{Deserialize, Serialize};
 use std::collections::HashSet;
 use std::marker::PhantomData;
 
-pub const OPS: [&str; 12] = [
+pub const OPS: [&str; 24] = [
     "SecretKey::new",
     "SecretKey::split",
     "PublicKey::sign_crypt",
@@ -20,20 +20,35 @@ pub const OPS: [&str; 12] = [
     "SecretKeyEnum::new",
     "BlsSignature::new_secret_key",
     "BlsSignature::new_proof_challenge",
+    // the message taking entry points again with other message lengths (200 bytes, empty, 64 bytes)
+    "PublicKey::sign_crypt [200 byte message]",
+    "PublicKey::encrypt_time_lock [200 byte message]",
+    "ProofCommitment::generate [200 byte message]",
+    "ProofOfKnowledgeTimestamp::generate [200 byte message]",
+    "PublicKey::sign_crypt [empty message]",
+    "PublicKey::encrypt_time_lock [empty message]",
+    "ProofCommitment::generate [empty message]",
+    "ProofOfKnowledgeTimestamp::generate [empty message]",
+    "PublicKey::sign_crypt [64 byte message]",
+    "PublicKey::encrypt_time_lock [64 byte message]",
+    "ProofCommitment::generate [64 byte message]",
+    "ProofOfKnowledgeTimestamp::generate [64 byte message]",
 ];
 
 pub struct Fixed<C: Suite> {
     sk: SecretKey<C>,
     pk: PublicKey<C>,
-    msg: Vec<u8>,
-    sig: Signature<C>,
+    /// message variants: 33 bytes, 200 bytes, empty, 64 bytes - with the signature over each
+    msgs: Vec<Vec<u8>>,
+    sigs: Vec<Signature<C>>,
 }
 
 impl<C: Suite> Fixed<C> {
     fn new(seed: u64) -> Self {
         let sk = SecretKey::<C>::from_hash(data(seed, "c20-key", 32));
-        let msg = msg_of(seed, 33, 3);
-        Fixed { pk: sk.public_key(), sig: sk.sign(SignatureSchemes::ProofOfPossession, &msg).unwrap(), sk, msg }
+        let msgs = vec![msg_of(seed, 33, 3), msg_of(seed, 200, 3), vec![], msg_of(seed, 64, 3)];
+        let sigs = msgs.iter().map(|m| sk.sign(SignatureSchemes::ProofOfPossession, m).unwrap()).collect();
+        Fixed { pk: sk.public_key(), sigs, sk, msgs }
     }
 }
 
@@ -41,6 +56,10 @@ impl<C: Suite> Fixed<C> {
 /// (ephemeral points, masks, secrets), each labelled
 pub fn run_op<C: Suite>(f: &Fixed<C>, op: usize) -> Vec<(String, Vec<u8>)> {
     let s = SignatureSchemes::ProofOfPossession;
+    // ops 12.. are the four message taking entry points with message variant 1, 2, 3
+    let (op, variant) = if op >= 12 { ([2usize, 3, 6, 7][(op - 12) % 4], 1 + (op - 12) / 4) } else { (op, 0) };
+    let msg = &f.msgs[variant];
+    let sig = f.sigs[variant];
     match op {
         0 => vec![("secret key".into(), SecretKey::<C>::new().to_be_bytes().to_vec())],
         1 => {
@@ -48,11 +67,11 @@ pub fn run_op<C: Suite>(f: &Fixed<C>, op: usize) -> Vec<(String, Vec<u8>)> {
             sh.iter().enumerate().map(|(i, x)| (format!("share value {}", i), x.0.value_vec())).collect()
         }
         2 => {
-            let ct = f.pk.sign_crypt(s, &f.msg);
+            let ct = f.pk.sign_crypt(s, msg);
             vec![("signcrypt u".into(), pt(&ct.u)), ("signcrypt mask".into(), ct.v.clone()), ("signcrypt w".into(), pt(&ct.w))]
         }
         3 => {
-            let ct = f.pk.encrypt_time_lock(s, &f.msg, b"id").expect("time lock");
+            let ct = f.pk.encrypt_time_lock(s, msg, b"id").expect("time lock");
             vec![("timelock u".into(), pt(&ct.u)), ("timelock v".into(), ct.v.to_vec()), ("timelock mask".into(), ct.w.clone())]
         }
         4 => {
@@ -70,11 +89,11 @@ pub fn run_op<C: Suite>(f: &Fixed<C>, op: usize) -> Vec<(String, Vec<u8>)> {
             ]
         }
         6 => {
-            let (c, x) = ProofCommitment::<C>::generate(&f.msg, f.sig).expect("commit");
+            let (c, x) = ProofCommitment::<C>::generate(msg, sig).expect("commit");
             vec![("commitment".into(), Vec::<u8>::from(&c)), ("commitment secret".into(), x.to_be_bytes().to_vec())]
         }
         7 => {
-            let p = ProofOfKnowledgeTimestamp::<C>::generate(&f.msg, f.sig).expect("timestamp proof");
+            let p = ProofOfKnowledgeTimestamp::<C>::generate(msg, sig).expect("timestamp proof");
             let b = Vec::<u8>::from(&p.proof);
             let half = (b.len() - 1) / 2;
             vec![("timestamp-proof u".into(), b[1..1 + half].to_vec()), ("timestamp-proof v".into(), b[1 + half..].to_vec())]
@@ -328,7 +347,7 @@ pub fn models(tier: Tier, seed: u64) -> Vec<Box<dyn DynModel>> {
 }
 
 pub fn describe(tier: Tier, r: &mut Report) {
-    r.rule = "part A (exhaustive, hooked entropy): all histories of the 12 randomized entry points with identical arguments up to the length bound; each history runs three times - entropy answers A, A again, B: (I1) all ephemerals (points, masks, secrets) of all calls pairwise distinct, (I3) every ephemeral differs between A and B, (I2) A reproduces A, otherwise entropy is drawn outside the seam (machinery failure, not a verdict). part B (free running with real entropy - a sample, not an enumeration): N calls per entry point on 4 threads without a repeated ephemeral, and two independent processes with disjoint ephemerals".into();
+    r.rule = "part A (exhaustive, hooked entropy): all histories of the 12 randomized entry points (the four message taking ones with four message lengths each: 24 operations) with identical arguments up to the length bound; each history runs three times - entropy answers A, A again, B: (I1) all ephemerals (points, masks, secrets) of all calls pairwise distinct, (I3) every ephemeral differs between A and B, (I2) A reproduces A, otherwise entropy is drawn outside the seam (machinery failure, not a verdict). part B (free running with real entropy - a sample, not an enumeration): N calls per entry point on 4 threads without a repeated ephemeral, and two independent processes with disjoint ephemerals".into();
     r.deviation_bound_completed = format!("histories of length <= {}", if tier.thorough() { 3 } else { 2 });
     r.alphabet.insert("entry_points".into(), serde_json::json!(OPS));
     r.alphabet.insert("free_running_calls_per_entry_point".into(), serde_json::json!(if tier.thorough() { 4096 } else { 256 }));
